@@ -622,6 +622,35 @@ pub fn gen_recv(run: &mut Run, rng: &mut Rng, thorough: bool) {
             }
         }
     }
+    // (i') Dublin over IPv4 with a UDP checksum that *computes* to zero (found by search over the round's variable
+    // port): whatever the dispatcher puts into the checksum field, the expected checksum derived from an unmodified
+    // quotation must equal it (C19: the first responding hop must not look like NAT)
+    {
+        let mut hits = 0;
+        for cell in cs.iter().filter(|c| c.proto == 'u' && c.strat == 'd') {
+            let (src, dst) = addr_pairs(false, rng)[0];
+            'search: for pattern in [0u8, 0x5a, 0xff] {
+                for size in [28u16, 40, 84] {
+                    let cfg = WCfg { v6: false, src, dst, size, pattern, privileged: true, tos: 0, proto: 'u', ext: false, initial: 33434 };
+                    let payload = vec![pattern; usize::from(size) - 28];
+                    for round in 0..65534usize {
+                        let p = probe_for(cell, cfg.initial, 0, 33500, round, 3);
+                        if udp_ck(&cfg, p.src_port.0, p.dest_port.0, &payload) == 0 {
+                            if let Some(sent) = op_send(run, &cfg, &p, Some(cell)) {
+                                if let Some(datagram) = wire_datagram(&cfg, &p, &sent, rng) {
+                                    let b = Built { cfg: cfg.clone(), cell: *cell, probe: p, datagram };
+                                    genuine(run, rng, &b, false);
+                                    hits += 1;
+                                }
+                            }
+                            break 'search;
+                        }
+                    }
+                }
+            }
+        }
+        *run.stats.entry("gen:udp4-dublin-computed-zero".into()).or_default() += hits;
+    }
     // (ii) sweeps: protocol × family × extension mode (× privilege, alternating)
     let mut k = 0;
     for v6 in [false, true] {
